@@ -240,10 +240,6 @@ def tree_classes(d, w, first_trip_differs=True, skeleton=None):
     if w.get('pt') and any(k == 'textpath' and i in root_ids for k, ptr, i, ctx, via in wk.defs) and \
             (skeleton is None or textpaths_written_properly(skeleton, prefix, set(i for k, ptr, i, ctx, via in wk.defs if k == 'textpath'))):
         out.append('textpath-id-twice')
-    # a clipPath child group that holds something else than paths (a text or `use` with a transform: one more group level): the writer's
-    # clipPath branch writes only the DIRECT path children of a child group, the rest vanishes from the written <clipPath>
-    if any(ch['t'] == 'g' and any(x['t'] != 'path' for x in ch['children']) for c in d['clip_paths'] for ch in c['root']['children']):
-        out.append('clip-text-transform-dropped')
     if any(p['kind']['k'] == 'ColorMatrix' and p['kind']['kind']['k'] == 'Saturate' and isinstance(p['kind']['kind']['v'], (int, float))
            and p['kind']['kind']['v'] > 1 for f in d['filters'] for p in f['primitives']):
         out.append('saturate-above-one')
@@ -331,6 +327,10 @@ def run(ctx):
     for aid, attr, body, values, ext, wo in ELISION_RT:
         for v in values:
             ecases.append(dict(enum='elision/' + attr, spelling=v, expect=None, doc=enum_doc(body % v), ext=ext, wo=wo, elide=(aid, attr, float(v))))
+    # gradient stops (C08_stops_roundtrip on the real code): the stop list of the tree is the stop list after write + re-parse
+    for lab, d in rtgen.gradient_stop_docs():
+        ecases.append(dict(enum='stops', spelling=lab, expect=None, doc=d, wo={},
+                           ext=lambda t: (t['linear_gradients'] + t['radial_gradients'])[0]['stops']))
     eouts = ctx.rvh_batch(binp, 'c08-rt', ["-\t%s\t%s" % (c07.wopts_str(c['wo']), c['doc']) for c in ecases])
     ehist = {}
     for c, o in zip(ecases, eouts):
@@ -372,6 +372,12 @@ def run(ctx):
                               dict(doc=c['doc'], wopts=c07.wopts_str(c['wo']), op='c08-rt', text=r.get('text', '')[:1500]))
         if va != vb:
             cls = None
+            if c['enum'] == 'stops' and isinstance(va, list) and isinstance(vb, list) and len(va) == len(vb) and \
+                    all(a['rgb'] == b['rgb'] and a['opacity'] == b['opacity'] and abs(a['offset'] - b['offset']) <= 1e-6 for a, b in zip(va, vb)) and \
+                    any(abs(x['offset'] - y['offset']) <= 5e-7 for x, y in zip(va, va[1:])):
+                # convert_stops' "shift equal offsets" step treats offsets within 4 ulps as equal: the pair it separated by f32::EPSILON
+                # (2 ulps at 0.5) is separated again on every re-parse
+                cls = 'stop-offset-shift-drift'
             text = ("enum-rt: %s=%r is %s in the tree, but %s after writing and parsing again" % (c['enum'], c['spelling'], va, vb))
             rep = dict(doc=c['doc'], wopts=c07.wopts_str(c['wo']), op='c08-rt', before=va, after=vb, text=r.get('text', '')[:1500])
             if cls:
@@ -480,7 +486,7 @@ def run(ctx):
 
     # ------------------------------------------------------------------ S: round-trip rendering
     wit = sorted(os.path.join(WITNESS, f) for f in os.listdir(WITNESS) if f.endswith('.svg'))
-    strict = set(k for k, f in enumerate(wit) if os.path.basename(f) in ('F08.svg', 'F09.svg', 'F13.svg', 'F46.svg'))
+    strict = set(k for k, f in enumerate(wit) if os.path.basename(f) in ('F08.svg', 'F09.svg', 'F13.svg', 'F46.svg', 'C19-clip-text-transform-writer.svg'))
     corpus = vlib.corpus_files()
     ngen = 150 if quick else 1500
     gen_docs = [refgen.gen_ref_doc(rng, id_style=['plain', 'genlike', 'weird'][i % 3], big=(i % 5 == 0)) for i in range(ngen)]
@@ -516,10 +522,17 @@ def run(ctx):
         strict.add(len(docs) - 1)
         for w in rtgen.OPTION_MATRIX:
             cases.append((len(docs) - 1, dict(w)))
-    # text inside a clipPath (with a transform: one more group level; class clip-text-transform-dropped until fixed): all four option sets
+    # gradients whose consecutive stops repeat a colour / share an offset (seeded C08-17): strict
+    for lab, d in rtgen.gradient_stop_docs():
+        docs.append(d)
+        labels.append('stops/' + lab)
+        strict.add(len(docs) - 1)
+        cases.append((len(docs) - 1, dict(prefix=None, pt=False)))
+    # text inside a clipPath (with a transform: one more group level; fixed in 5d8487d): all four option sets, strict
     for lab, d in rtgen.clip_text_docs():
         docs.append(d)
         labels.append('clip-text/' + lab)
+        strict.add(len(docs) - 1)
         for w in rtgen.OPTION_MATRIX:
             cases.append((len(docs) - 1, dict(w)))
     outs = ctx.rvh_batch(binp, 'c08-render', ["-\t%s\t%s" % (c07.wopts_str(w), docs[k]) for k, w in cases], per_item_timeout=90, chunk=6)
